@@ -655,6 +655,13 @@ pub fn case(seed: u64, st: &mut Stats) {
     if rng.chance(1, 3) {
         let mut spec3 = spec.clone();
         spec3.set(Setting::ArgRequiredElseHelp);
+        // (half of the options that may come without a value get no missing-value default: their
+        // bare occurrence then holds no value at all)
+        for a in spec3.args.iter_mut() {
+            if a.takes_values() && a.eff_num_args().0 == 0 && rng.coin() {
+                a.default_missing.clear();
+            }
+        }
         for s in spec3.subs.iter_mut() {
             s.set(Setting::ArgRequiredElseHelp);
         }
@@ -662,6 +669,20 @@ pub fn case(seed: u64, st: &mut Stats) {
             let mut lines: Vec<Vec<OsString>> = vec![vec!["prog".into()], vec!["prog".into(), "--".into()]];
             for s in &spec3.subs {
                 lines.push(vec!["prog".into(), s.name.clone().into()]);
+            }
+            // ... and a line that does carry an argument — a flag, or an option given without a
+            // value — is not "nothing given"
+            for a in spec3.args.iter().filter(|a| a.long.is_some() && (!a.takes_values() || a.eff_num_args().0 == 0)) {
+                let argv: Vec<OsString> = vec!["prog".into(), format!("--{}", a.long.as_ref().unwrap()).into()];
+                st.eval();
+                match catch(|| cmd3.clone().try_get_matches_from(argv.clone())) {
+                    Err(p) => st.violation(format!("panic:parse@{}", p.loc), format!("{} | argv={}", p.msg, show_argv(&argv))),
+                    Ok(Err(e)) if e.kind() == K::DisplayHelpOnMissingArgumentOrSubcommand => {
+                        let what = if !a.takes_values() { "flag" } else if a.default_missing.is_empty() { "option-without-value" } else { "option-with-missing-value-default" };
+                        st.violation(format!("c10:else-help-although-argument-given:{}", what), format!("argv={} | spec={}", show_argv(&argv), brief(&spec3)));
+                    }
+                    Ok(_) => st.count(if a.takes_values() { "else-help.not-shown-for-valueless-option" } else { "else-help.not-shown-for-flag" }),
+                }
             }
             for argv in lines {
                 st.eval();
